@@ -68,6 +68,10 @@ I6_FallOffNeutral == (pc = BodyEnd(p, r) + 1) => d = 0
 \* a function that declares results must not fall off its end (Go rejects such programs)
 L1_NoMissingReturn == (pc = BodyEnd(p, r) + 1 /\ r # 0) => Rets(p, r) = 0
 
+\* exploration stops where the depth has left any plausible range (a mis-compiled loop would otherwise
+\* make the state space infinite once a violation has been found and the search continues)
+DepthWindow == d >= -8 /\ d <= 200
+
 \* every reachable state is reported so that the harness can compare depths per pc (I4: depth is a
 \* function of pc) and bind the concrete step traces to the same table
 EmitState == PrintT(<<"ST", ToJson([p |-> p, r |-> r, pc |-> pc, d |-> d])>>)
